@@ -32,6 +32,9 @@ import sympy as sp
 from gridlint.core import norm, strip_docstring
 
 
+np = np  # re-exported for the rule modules
+
+
 class Undecided(Exception):
     pass
 
@@ -849,7 +852,7 @@ class Interp:
                 return int(base.ndim)
             if e.attr == "T":
                 return base.T
-            if e.attr in ("dot", "copy", "flatten", "ravel", "astype", "sum", "reshape", "tolist"):
+            if e.attr in ("dot", "copy", "flatten", "ravel", "astype", "sum", "reshape", "tolist", "transpose", "clip", "prod"):
                 return ("method", base, e.attr)
         if isinstance(base, tuple) and hasattr(base, "_fields") and e.attr in base._fields:
             return getattr(base, e.attr)
@@ -910,6 +913,19 @@ class Interp:
                 return base.reshape(tuple(self._int(x) for x in shp))
             if name == "tolist":
                 return base.tolist()
+            if name == "transpose":
+                axes = args[0] if len(args) == 1 and isinstance(args[0], (list, tuple)) else args
+                return base.transpose([self._int(x) for x in axes]) if axes else base.T
+            if name == "prod":
+                axis = kw.get("axis", args[0] if args else None)
+                return base.astype(object).prod(axis=None if axis is None else self._int(axis))
+            if name == "clip":
+                lo = kw.get("min", args[0] if args else None)
+                hi = kw.get("max", args[1] if len(args) > 1 else None)
+                if base.dtype.kind in "iu" or all(isinstance(x, (int, np.integer)) for x in base.flatten()):
+                    return np.clip(np.array([int(x) for x in base.flatten()], dtype=int).reshape(base.shape),
+                                   None if lo is None else self._int(lo), None if hi is None else self._int(hi))
+                raise Undecided("clip of symbolic data")
             if name in ("flatten", "ravel"):
                 return base.flatten()
             if name == "append":
@@ -1159,6 +1175,20 @@ class Interp:
         if name == "ravel":
             v = args[0] if isinstance(args[0], np.ndarray) else _obj_array(args[0])
             return v.ravel()
+        if name == "clip":
+            v = args[0] if isinstance(args[0], np.ndarray) else _obj_array(args[0])
+            lo = kw.get("a_min", kw.get("min", args[1] if len(args) > 1 else None))
+            hi = kw.get("a_max", kw.get("max", args[2] if len(args) > 2 else None))
+            if all(isinstance(x, (int, np.integer, sp.Integer)) and not isinstance(x, bool) for x in v.flatten()):
+                return np.clip(np.array([int(x) for x in v.flatten()], dtype=int).reshape(v.shape),
+                               None if lo is None else self._int(lo), None if hi is None else self._int(hi))
+            raise Undecided("np.clip of symbolic data")
+        if name == "transpose":
+            v = args[0] if isinstance(args[0], np.ndarray) else _obj_array(args[0])
+            axes = kw.get("axes", args[1] if len(args) > 1 else None)
+            return np.transpose(v, None if axes is None else [self._int(x) for x in axes])
+        if name == "swapaxes":
+            return np.swapaxes(args[0], self._int(args[1]), self._int(args[2]))
         if name == "moveaxis":
             return np.moveaxis(args[0], self._int(args[1]), self._int(args[2]))
         if name == "flatnonzero" and isinstance(args[0], np.ndarray) and args[0].dtype == bool:
@@ -1249,8 +1279,15 @@ class Interp:
                     if w is not None and w == 0.0 and isinstance(u, sp.Basic) and u.free_symbols and u.free_symbols <= self.generic:
                         return False
             raise Undecided(f"np.{name} of symbolic data")
-        if name in ("isinf", "isnan"):
-            raise Undecided(f"np.{name} of symbolic data")
+        if name == "isnan":
+            v = args[0] if isinstance(args[0], np.ndarray) else _obj_array(args[0])
+            out = np.empty(v.shape, dtype=bool)
+            for idx in np.ndindex(v.shape):
+                x = v[idx]
+                out[idx] = bool(x is sp.nan or (isinstance(x, sp.Basic) and x.has(sp.nan)) or (isinstance(x, float) and x != x))
+            return out if out.shape != () else bool(out[()])
+        if name == "isinf":
+            raise Undecided("np.isinf of symbolic data")
         raise Undecided(f"np.{name}")
 
 
